@@ -1,5 +1,7 @@
-from . import props_bf, props_tape, props_static, props_parser, props_sv, props_arith, props_cli
+from . import (props_bf, props_tape, props_static, props_parser, props_sv, props_arith, props_cli,
+               props_compile, props_expr)
 
 CHECKS = {}
-for m in (props_bf, props_tape, props_static, props_parser, props_sv, props_arith, props_cli):
+for m in (props_bf, props_tape, props_static, props_parser, props_sv, props_arith, props_cli, props_compile,
+          props_expr):
     CHECKS.update(m.CHECKS)
